@@ -183,10 +183,28 @@ func cmdCheck(argv []string) int {
 		}
 	}
 	harnessTried := map[string]string{}
+	type retGroup struct {
+		first        *Obligation
+		n, reachable int
+	}
+	retCover := map[string]*retGroup{}
 	for _, o := range eng.obls {
 		solverSecs += o.Secs
 		if slowest == nil || o.Secs > slowest.Secs {
 			slowest = o
+		}
+		if o.Kind == "cover-ret" {
+			// individually a return path may be dead code; the function is vacuous only if none is reachable
+			g := retCover[o.Fn]
+			if g == nil {
+				g = &retGroup{first: o}
+				retCover[o.Fn] = g
+			}
+			g.n++
+			if o.Status != "unsat" {
+				g.reachable++
+			}
+			continue
 		}
 		if o.Cover {
 			total++
@@ -265,6 +283,22 @@ func cmdCheck(argv []string) int {
 			}
 		}
 		violations = append(violations, fmt.Sprintf("VIOLATION property=%s replay=%s obligation=%s at=%s status=%s what=%q%s", *prop, rp, o.Name, o.Pos, o.Status, o.Desc, suffix))
+	}
+	var fnsCovered []string
+	for fn := range retCover {
+		fnsCovered = append(fnsCovered, fn)
+	}
+	sort.Strings(fnsCovered)
+	for _, fn := range fnsCovered {
+		g := retCover[fn]
+		total++
+		if g.reachable > 0 {
+			discharged++
+			continue
+		}
+		exit = 1
+		rp := writeReplayText(*prop, g.first, "vacuity: no return path of "+fn+" is reachable under its contract and the assumed contracts it uses (contradictory assumptions)")
+		violations = append(violations, fmt.Sprintf("VIOLATION property=%s replay=%s function=%s vacuous: no return path reachable (%d paths) no-failing-input-found", *prop, rp, fn, g.n))
 	}
 	if total == 0 {
 		exit = 1
